@@ -1,5 +1,5 @@
 import ZipVerif.Lemmas.ReadEntry
-import ZipVerif.Spec.ZipOrder
+import ZipVerif.Lemmas.CentralParseG
 /-
 `ZipArchive::new` and the entry readers on generalised layouts (`Spec.Zip.LayoutG`, finding F7): a central
 directory that lists the entries in another order than their local records lie in the file, end-record
@@ -84,15 +84,18 @@ theorem placed_length : ∀ (es : List Entry) (loc : Nat), (placed es loc).lengt
   | cons e es ih => intro loc; simp [placed, ih]
 
 /-- every element of the directory's list is an entry of the layout, with the offset of its local header -/
-theorem mem_cdList (g : LayoutG) (p : Entry × Nat) (h : p ∈ g.cdList) :
-    ∃ es1 es2, g.base.entries = es1 ++ p.1 :: es2 ∧
-      p.2 = (localsBytes es1).length + p.1.gapBefore.length := by
-  simp only [LayoutG.cdList, List.mem_filterMap] at h
-  obtain ⟨i, _, hi⟩ := h
-  obtain ⟨es1, es2, h1, _, h3⟩ := placed_getElem g.base.entries 0 i p hi
-  exact ⟨es1, es2, h1, by omega⟩
+theorem mem_cdList (g : LayoutG) (p : Listed) (h : p ∈ g.cdList) :
+    ∃ es1 es2, g.base.entries = es1 ++ p.1.1 :: es2 ∧
+      p.1.2 = (localsBytes es1).length + p.1.1.gapBefore.length := by
+  simp only [LayoutG.cdList, List.mem_filterMap, Option.map_eq_some_iff] at h
+  obtain ⟨i, _, q, hi, hq⟩ := h
+  subst hq
+  obtain ⟨es1, es2, h1, _, h3⟩ := placed_getElem g.base.entries 0 i q hi
+  refine ⟨es1, es2, h1, ?_⟩
+  show q.2 = (localsBytes es1).length + q.1.gapBefore.length
+  omega
 
-theorem viewListP_length (pre : Nat) : ∀ (ps : List (Entry × Nat)) (chs : Nat),
+theorem viewListP_length (pre : Nat) : ∀ (ps : List Listed) (chs : Nat),
     (viewListP pre ps chs).length = ps.length := by
   intro ps
   induction ps with
@@ -100,8 +103,8 @@ theorem viewListP_length (pre : Nat) : ∀ (ps : List (Entry × Nat)) (chs : Nat
   | cons p ps ih => intro chs; simp [viewListP, ih]
 
 /-- element `i` of the reported list is the view of element `i` of the directory's list -/
-theorem viewListP_getElem (pre : Nat) : ∀ (ps : List (Entry × Nat)) (chs i : Nat) (p : Entry × Nat),
-    ps[i]? = some p → ∃ c, (viewListP pre ps chs)[i]? = some (viewEntry p.1 p.2 pre c) := by
+theorem viewListP_getElem (pre : Nat) : ∀ (ps : List Listed) (chs i : Nat) (p : Listed),
+    ps[i]? = some p → ∃ c, (viewListP pre ps chs)[i]? = some (viewEntryG p.1.1 p.1.2 pre c p.2) := by
   intro ps
   induction ps with
   | nil => intro chs i p h; simp at h
@@ -114,18 +117,19 @@ theorem viewListP_getElem (pre : Nat) : ∀ (ps : List (Entry × Nat)) (chs i : 
       exact ⟨chs, by simp [viewListP]⟩
     | succ i =>
       simp only [List.getElem?_cons_succ] at h
-      obtain ⟨c, hc⟩ := ih (chs + (centralRecord q.1 (UInt64.ofNat q.2)).length) i p h
+      obtain ⟨c, hc⟩ := ih (chs + (centralRecordG q.1.1 (UInt64.ofNat q.1.2) q.2).length) i p h
       exact ⟨c, by simpa [viewListP] using hc⟩
 
-theorem centralRecord_length_pos (e : Entry) (off : UInt64) : 1 ≤ (centralRecord e off).length := by
-  rw [centralRecord_eq]; simp; omega
+theorem centralRecordG_length_pos (e : Entry) (off : UInt64) (pl : Z64Place) :
+    1 ≤ (centralRecordG e off pl).length := by
+  unfold centralRecordG; simp; omega
 
-theorem length_le_centralBytesP : ∀ ps : List (Entry × Nat), ps.length ≤ (centralBytesP ps).length := by
+theorem length_le_centralBytesP : ∀ ps : List Listed, ps.length ≤ (centralBytesP ps).length := by
   intro ps
   induction ps with
   | nil => simp [centralBytesP]
   | cons p ps ih =>
-    have := centralRecord_length_pos p.1 (UInt64.ofNat p.2)
+    have := centralRecordG_length_pos p.1.1 (UInt64.ofNat p.1.2) p.2
     simp only [centralBytesP, List.length_append, List.length_cons]; omega
 
 end ZipVerif.Spec.Zip
@@ -135,8 +139,9 @@ open ZipVerif ZipVerif.Spec.Zip
 
 /-! ### the central-directory loop over an arbitrary list of placed entries -/
 
-theorem parses_centralLoopP (ao : Nat) : ∀ (ps : List (Entry × Nat)) (chs : Nat),
-    (∀ p ∈ ps, p.1.Fits ∧ p.1.Readable ∧ p.2 + ao < 2 ^ 64) →
+theorem parses_centralLoopP (ao : Nat) : ∀ (ps : List Listed) (chs : Nat),
+    (∀ p ∈ ps, p.1.1.Fits ∧ p.1.1.Readable ∧ p.1.2 + ao < 2 ^ 64 ∧
+      (p.1.1.centralExtraAllG (UInt64.ofNat p.1.2) p.2).length ≤ 0xFFFF) →
     Parses (readCentralLoop ao ps.length) chs (centralBytesP ps) (viewListP ao ps chs) := by
   intro ps
   induction ps with
@@ -145,9 +150,9 @@ theorem parses_centralLoopP (ao : Nat) : ∀ (ps : List (Entry × Nat)) (chs : N
     intro chs hall
     have hp := hall p (List.mem_cons_self)
     show Parses (readCentralLoop ao (ps.length + 1)) chs
-      (centralRecord p.1 (UInt64.ofNat p.2) ++ centralBytesP ps) _
+      (centralRecordG p.1.1 (UInt64.ofNat p.1.2) p.2 ++ centralBytesP ps) _
     unfold readCentralLoop
-    refine Parses.bind (parses_centralHeader p.1 p.2 ao chs hp.1 hp.2.1.1 hp.2.1.2 hp.2.2) ?_
+    refine Parses.bind (parses_centralHeaderG p.1.1 p.1.2 ao chs p.2 hp.1 hp.2.1.1 hp.2.1.2 hp.2.2.1 hp.2.2.2) ?_
     refine Parses.bind_last (ih _ (fun x hx => hall x (List.mem_cons_of_mem _ hx))) ?_
     exact Parses.pure _
 
@@ -202,18 +207,19 @@ theorem plain_factsG (g : LayoutG) (h64 : g.needs64 = false) :
 theorem fits_boundsG (g : LayoutG) (hF : g.Fits) :
     g.base.pre.length + (localsBytes g.base.entries).length + g.base.gapBeforeCd.length + g.cdSize +
       g.gap.length + g.end64.length + 22 + g.base.comment.length + g.base.trailing.length < 2 ^ 63 := by
-  have := hF.2.2
+  have := hF.2.2.1
   rw [buildG_length] at this
   simp only [LayoutG.eocdPos, LayoutG.cdStart, Layout.cdStart, Layout.cdOffset] at this
   omega
 
 /-- the hypotheses of the loop lemma, for the directory's list of a fitting, readable layout -/
 theorem cdList_ok (g : LayoutG) (hF : g.Fits) (hR : g.base.Readable) :
-    ∀ p ∈ g.cdList, p.1.Fits ∧ p.1.Readable ∧ p.2 + g.base.pre.length < 2 ^ 64 := by
+    ∀ p ∈ g.cdList, p.1.1.Fits ∧ p.1.1.Readable ∧ p.1.2 + g.base.pre.length < 2 ^ 64 ∧
+      (p.1.1.centralExtraAllG (UInt64.ofNat p.1.2) p.2).length ≤ 0xFFFF := by
   intro p hp
   obtain ⟨es1, es2, h1, h2⟩ := mem_cdList g p hp
-  have hm : p.1 ∈ g.base.entries := by rw [h1]; simp
-  refine ⟨hF.1 _ hm, hR _ hm, ?_⟩
+  have hm : p.1.1 ∈ g.base.entries := by rw [h1]; simp
+  refine ⟨hF.1 _ hm, hR _ hm, ?_, hF.2.2.2 p hp⟩
   have hb := fits_boundsG g hF
   rw [h1, localsBytes_append, localsBytes_cons] at hb
   simp only [List.length_append, Entry.localBytes] at hb
@@ -348,13 +354,13 @@ theorem open_z64G (g : LayoutG) (hF : g.Fits) (hR : g.base.Readable) (h64 : g.ne
 /-! ### entries -/
 
 /-- Everything the entry readers need to know about entry `i` of the DIRECTORY of `buildG g`. -/
-theorem entry_atG (g : LayoutG) (hF : g.Fits) (i : Nat) (p : Entry × Nat) (he : g.cdList[i]? = some p) :
-    ∃ chs rest, (archiveOfG g).files[i]? = some (viewEntry p.1 p.2 g.base.pre.length chs) ∧
-      (buildG g).drop (p.2 + g.base.pre.length) = localRecord p.1 ++ (p.1.data ++ rest) ∧
-      p.2 + g.base.pre.length + (localRecord p.1).length + p.1.data.length < 2 ^ 63 ∧ p.1.Fits := by
+theorem entry_atG (g : LayoutG) (hF : g.Fits) (i : Nat) (p : Listed) (he : g.cdList[i]? = some p) :
+    ∃ chs rest, (archiveOfG g).files[i]? = some (viewEntryG p.1.1 p.1.2 g.base.pre.length chs p.2) ∧
+      (buildG g).drop (p.1.2 + g.base.pre.length) = localRecord p.1.1 ++ (p.1.1.data ++ rest) ∧
+      p.1.2 + g.base.pre.length + (localRecord p.1.1).length + p.1.1.data.length < 2 ^ 63 ∧ p.1.1.Fits := by
   obtain ⟨chs, hv⟩ := viewListP_getElem g.base.pre.length g.cdList g.cdStart i p he
   obtain ⟨es1, es2, h1, h2⟩ := mem_cdList g p (List.mem_of_getElem? he)
-  obtain ⟨rest, hr⟩ := drop_localG g es1 es2 p.1 h1
+  obtain ⟨rest, hr⟩ := drop_localG g es1 es2 p.1.1 h1
   refine ⟨chs, rest, hv, ?_, ?_, hF.1 _ (by rw [h1]; simp)⟩
   · rw [← hr]; congr 1; omega
   · have hb := fits_boundsG g hF
@@ -362,56 +368,62 @@ theorem entry_atG (g : LayoutG) (hF : g.Fits) (i : Nat) (p : Entry × Nat) (he :
     simp only [List.length_append, Entry.localBytes] at hb
     omega
 
+/-- `find_content` looks at the header offset only: the placement of the ZIP64 record does not matter -/
+theorem findContent_viewEntryG (e : Entry) (off pre chs : Nat) (pl : Z64Place) :
+    findContent (viewEntryG e off pre chs pl) = findContent (viewEntry e off pre chs) := rfl
+
 /-- `by_index_raw(i)`: the stored bytes of the entry the directory lists at position `i`, found through the
 offset recorded for it. -/
-theorem runs_byIndexRawG (g : LayoutG) (hF : g.Fits) (i : Nat) (p : Entry × Nat) (he : g.cdList[i]? = some p)
+theorem runs_byIndexRawG (g : LayoutG) (hF : g.Fits) (i : Nat) (p : Listed) (he : g.cdList[i]? = some p)
     (p0 : Nat) :
-    Runs (byIndexRaw (archiveOfG g) i) (buildG g) p0 (.ok (p.1.dataStart p.2 g.base.pre.length, p.1.data))
-      (p.1.dataStart p.2 g.base.pre.length + p.1.data.length) := by
+    Runs (byIndexRaw (archiveOfG g) i) (buildG g) p0 (.ok (p.1.1.dataStart p.1.2 g.base.pre.length, p.1.1.data))
+      (p.1.1.dataStart p.1.2 g.base.pre.length + p.1.1.data.length) := by
   obtain ⟨chs, rest, h2, h3, h4, hfe⟩ := entry_atG g hF i p he
   unfold byIndexRaw
   rw [h2]
   dsimp only
-  refine Runs.bind (runs_findContent p.1 p.2 g.base.pre.length chs p0 hfe (by omega) h3) ?_
-  have hds : (buildG g).drop (p.1.dataStart p.2 g.base.pre.length) = p.1.data ++ rest := by
+  rw [findContent_viewEntryG]
+  refine Runs.bind (runs_findContent p.1.1 p.1.2 g.base.pre.length chs p0 hfe (by omega) h3) ?_
+  have hds : (buildG g).drop (p.1.1.dataStart p.1.2 g.base.pre.length) = p.1.1.data ++ rest := by
     have := drop_past h3
     rw [localRecord_length] at this
     rw [← this]; congr 1; simp [Entry.dataStart]; omega
-  have hcs : (viewEntry p.1 p.2 g.base.pre.length chs).compressedSize.toNat = p.1.data.length :=
+  have hcs : (viewEntryG p.1.1 p.1.2 g.base.pre.length chs p.2).compressedSize.toNat = p.1.1.data.length :=
     u64_ofNat_toNat (by omega)
   rw [hcs]
   refine Runs.bind (runs_takeAll hds) ?_
   exact Runs.pure _
 
 /-- `by_index(i)` + read to end on an unencrypted entry with a decodable method. -/
-theorem runs_byIndexReadG (ext : Ext) (g : LayoutG) (hF : g.Fits) (i : Nat) (p : Entry × Nat)
+theorem runs_byIndexReadG (ext : Ext) (g : LayoutG) (hF : g.Fits) (i : Nat) (p : Listed)
     (he : g.cdList[i]? = some p) (pw : Option Bytes)
-    (henc : (p.1.flagsOut &&& 1 == 1) = false) (hdec : (Method.fromU16 p.1.method).decodable = true)
+    (henc : (p.1.1.flagsOut &&& 1 == 1) = false) (hdec : (Method.fromU16 p.1.1.method).decodable = true)
     (p0 : Nat) :
     Runs (byIndexRead ext (archiveOfG g) i pw) (buildG g) p0
-      (.ok (.ok (p.1.dataStart p.2 g.base.pre.length,
-        ext.decode (Method.fromU16 p.1.method) p.1.data >>= fun dec => crcCheck false p.1.crc dec)))
-      (p.1.dataStart p.2 g.base.pre.length + p.1.data.length) := by
+      (.ok (.ok (p.1.1.dataStart p.1.2 g.base.pre.length,
+        ext.decode (Method.fromU16 p.1.1.method) p.1.1.data >>= fun dec => crcCheck false p.1.1.crc dec)))
+      (p.1.1.dataStart p.1.2 g.base.pre.length + p.1.1.data.length) := by
   obtain ⟨chs, rest, h2, h3, h4, hfe⟩ := entry_atG g hF i p he
-  have hds : (buildG g).drop (p.1.dataStart p.2 g.base.pre.length) = p.1.data ++ rest := by
+  have hds : (buildG g).drop (p.1.1.dataStart p.1.2 g.base.pre.length) = p.1.1.data ++ rest := by
     have := drop_past h3
     rw [localRecord_length] at this
     rw [← this]; congr 1; simp [Entry.dataStart]; omega
-  have hcs : (viewEntry p.1 p.2 g.base.pre.length chs).compressedSize.toNat = p.1.data.length :=
+  have hcs : (viewEntryG p.1.1 p.1.2 g.base.pre.length chs p.2).compressedSize.toNat = p.1.1.data.length :=
     u64_ofNat_toNat (by omega)
-  have hfc := runs_findContent p.1 p.2 g.base.pre.length chs p0 hfe (by omega) h3
+  have hfc := runs_findContent p.1.1 p.1.2 g.base.pre.length chs p0 hfe (by omega) h3
+  rw [← findContent_viewEntryG p.1.1 p.1.2 g.base.pre.length chs p.2] at hfc
   have hta := runs_takeAll hds
   unfold byIndexRead
   rw [h2]
   dsimp only
-  have henc' : (viewEntry p.1 p.2 g.base.pre.length chs).encrypted = false := henc
+  have henc' : (viewEntryG p.1.1 p.1.2 g.base.pre.length chs p.2).encrypted = false := henc
   rw [henc', if_neg (by simp)]
   refine Runs.bind hfc ?_
-  have hm : (viewEntry p.1 p.2 g.base.pre.length chs).method = Method.fromU16 p.1.method := rfl
-  have ha : (viewEntry p.1 p.2 g.base.pre.length chs).aesMode = none := rfl
-  have hc : (viewEntry p.1 p.2 g.base.pre.length chs).crc32 = p.1.crc := rfl
+  have hm : (viewEntryG p.1.1 p.1.2 g.base.pre.length chs p.2).method = Method.fromU16 p.1.1.method := rfl
+  have ha : (viewEntryG p.1.1 p.1.2 g.base.pre.length chs p.2).aesMode = none := rfl
+  have hc : (viewEntryG p.1.1 p.1.2 g.base.pre.length chs p.2).crc32 = p.1.1.crc := rfl
   rw [hm, ha, hcs, hc]
-  generalize Method.fromU16 p.1.method = m at hdec
+  generalize Method.fromU16 p.1.1.method = m at hdec
   cases m <;> simp only [Method.decodable] at hdec <;> try contradiction
   all_goals
     dsimp only [Bool.false_eq_true, if_false]
